@@ -55,6 +55,18 @@ type Frame struct {
 	curState *State
 }
 
+// freeVarLookup resolves the captured variables of a closure by name, reading
+// their cells in the given state (used by requires/ensures of closures).
+func (f *Frame) freeVarLookup(name string, st *State) (Val, bool) {
+	for _, fv := range f.fn.FreeVars {
+		if fv.Name() == name {
+			l := f.locOf(fv)
+			return Val{T: f.c.load(st, l), GT: l.typ}, true
+		}
+	}
+	return Val{}, false
+}
+
 // resLookup serves res("<selector>#k", i) in contracts of this frame's function.
 func (f *Frame) resLookup(key string, i int) (Val, bool) {
 	vs, ok := f.callRes[key]
@@ -251,6 +263,24 @@ func (f *Frame) selectorsOf(in ssa.Instruction) []string {
 		for _, s := range in.States {
 			if s.Dir == types.SendOnly {
 				sels = append(sels, "select-send")
+				// select-send:<name of the channel variable>
+				var nm string
+				switch ch := s.Chan.(type) {
+				case *ssa.Parameter:
+					nm = ch.Name()
+				case *ssa.FreeVar:
+					nm = ch.Name()
+				case *ssa.UnOp:
+					switch x := ch.X.(type) {
+					case *ssa.FreeVar:
+						nm = x.Name()
+					case *ssa.Alloc:
+						nm = x.Comment
+					}
+				}
+				if nm != "" {
+					sels = append(sels, "select-send:"+nm)
+				}
 				break
 			}
 		}
@@ -1361,7 +1391,7 @@ func (f *Frame) envAt(st *State, b *ssa.BasicBlock, idx int) *Env {
 	for k, v := range f.params {
 		env.vars[k] = v
 	}
-	env.local = func(name string) (Val, bool) { return f.lookupLocal(name, b, idx, st, nil) }
+	env.local = func(name string, s *State) (Val, bool) { return f.lookupLocal(name, b, idx, s, nil) }
 	env.res = f.resLookup
 	return env
 }
@@ -1378,7 +1408,7 @@ func (f *Frame) envAtHeader(st *State, h *ssa.BasicBlock, phis map[*ssa.Phi]Term
 		}
 		nphi = i + 1
 	}
-	env.local = func(name string) (Val, bool) { return f.lookupLocal(name, h, nphi, st, phis) }
+	env.local = func(name string, s *State) (Val, bool) { return f.lookupLocal(name, h, nphi, s, phis) }
 	return env
 }
 
